@@ -443,6 +443,18 @@ class DavSession:
               "bodylen": len(resp.body)}
         return self._record(ev, resp, {"m": "GET", "path": path, "headers": hdrs})
 
+    def uidquery(self, c, uid):
+        """calendar-query: VEVENTs whose UID is the given one (a read)."""
+        from xml.sax.saxutils import escape
+        body = ('<?xml version="1.0" encoding="utf-8"?><C:calendar-query xmlns:C="urn:ietf:params:xml:ns:caldav" '
+                'xmlns:D="DAV:"><D:prop><D:getetag/></D:prop><C:filter><C:comp-filter name="VCALENDAR">'
+                '<C:comp-filter name="VEVENT"><C:prop-filter name="UID"><C:text-match collation="i;octet">%s'
+                '</C:text-match></C:prop-filter></C:comp-filter></C:comp-filter></C:filter></C:calendar-query>'
+                % escape(uid)).encode("utf-8")
+        path = self.slots[c] + "/"
+        resp = self.world.request("REPORT", path, [("Content-Type", "text/xml"), ("Depth", "1")], body)
+        return self._record({"op": "Query", "c": c}, resp, {"m": "REPORT", "path": path, "uid": uid})
+
     def multiget(self, c, items):
         """items: list of (class, name) with class in
         live|missing|dup|enc|abs|othercoll|outside|coll|malformed ; recorded with the answers."""
